@@ -116,7 +116,13 @@ inline void dump_handle_info(const MEDDLY::node_headers &NH, long size)
 //
 // ******************************************************************
 
+#if defined(MEDDLY_VERIF) && defined(MEDDLY_VERIF_NH_START)
+// verification hook: small initial handle arrays so that growth and
+// shrink checks of the handle list happen inside a bounded history
+const size_t START_SIZE = MEDDLY_VERIF_NH_START;
+#else
 const size_t START_SIZE = 512;
+#endif
 // const size_t MAX_ADD = 65536;
 const size_t MAX_ADD = 16777216;
 
